@@ -1,6 +1,6 @@
 #!/usr/bin/env python3
 """Builds the runner (with both hooks) and the extracted model, then runs lib/scen_io.py for N seeds.
-usage: lib/run_io_scen.py [N seeds (default 1)] [--hist K] [--big K] [--casc K] [--sparse K] [--tier quick|thorough] [--first-seed S]
+usage: lib/run_io_scen.py [N seeds (default 1)] [--hist K] [--big K] [--casc K] [--sparse K] [--reopen K] [--tier quick|thorough] [--first-seed S]
 Honours VERIF_REPO (the tree the runner is built from).  Exit 0 when nothing was reported."""
 import os, sys, time
 sys.path.insert(0, os.path.dirname(os.path.abspath(__file__)))
@@ -11,13 +11,14 @@ import scen_io as SI
 
 def main():
     args = sys.argv[1:]
-    nseeds, hist, big, tier, first, casc, sparse = 1, None, None, 'quick', 1, None, None
+    nseeds, hist, big, tier, first, casc, sparse, reopen = 1, None, None, 'quick', 1, None, None, None
     i = 0
     while i < len(args):
         if args[i] == '--hist': hist = int(args[i + 1]); i += 2
         elif args[i] == '--big': big = int(args[i + 1]); i += 2
         elif args[i] == '--casc': casc = int(args[i + 1]); i += 2
         elif args[i] == '--sparse': sparse = int(args[i + 1]); i += 2
+        elif args[i] == '--reopen': reopen = int(args[i + 1]); i += 2
         elif args[i] == '--tier': tier = args[i + 1]; i += 2
         elif args[i] == '--first-seed': first = int(args[i + 1]); i += 2
         else: nseeds = int(args[i]); i += 1
@@ -25,18 +26,19 @@ def main():
     if not ok:
         print(lg[-3000:]); return 2
     # Extract.v needs Cache.vo and Io.vo, which build_driver's own make target list covers through its imports
-    ok, lg = C.coq_make(['theories/Cache.vo', 'theories/Io.vo'])
+    ok, lg = C.coq_make(['theories/Cache.vo', 'theories/Io.vo', 'theories/Open.vo'])
     if not ok:
         print(lg[-3000:]); return 2
     ok, lg = C.build_driver()
     if not ok:
         print(lg[-3000:]); return 2
     rc = 0
-    tot = {'histories': 0, 'histories_agreeing': 0, 'api_calls_compared': 0, 'io_events_compared': 0}
+    tot = {'histories': 0, 'histories_agreeing': 0, 'api_calls_compared': 0, 'io_events_compared': 0, 'reopen_histories': 0, 'reopen_histories_agreeing': 0,
+           'reopens_with_other_parameters': 0, 'opens_as_wrong_key_type': 0, 'opens_with_mutated_header_byte': 0, 'io_events_of_rejected_opens_compared': 0}
     for seed in range(first, first + nseeds):
         t0 = time.time()
         ctx = S.Ctx('IO', tier, seed)
-        SI.scen_io(ctx, hist, big, casc, sparse)
+        SI.scen_io(ctx, hist, big, casc, sparse, reopen)     # reopen None = the class default (40 quick / 240 thorough)
         d = ctx.distribution.get('io', {})
         for k in tot:
             tot[k] += d.get(k, 0)
